@@ -67,6 +67,7 @@ def main(argv=None):
     ap.add_argument('--only', default=None)
     ap.add_argument('-j', type=int, default=int(os.environ.get('PV_JOBS', min(16, os.cpu_count() or 4))))
     ap.add_argument('--no-evidence', action='store_true')
+    ap.add_argument('--budget', type=float, default=float(os.environ.get('PV_BUDGET_S', 0)))
     ap.add_argument('--write-baseline', action='store_true')
     ap.add_argument('-v', action='store_true')
     a = ap.parse_args(argv)
@@ -113,12 +114,15 @@ def main(argv=None):
     else:
         # dynamic scheduling: a job that runs longer than its slice hands unexplored path prefixes back, which are
         # queued as new jobs (paths are independent given their decision prefix)
+        budget = a.budget or (900 if tier == 'quick' else 14400)
         ctxm = mp.get_context('fork')
         with ctxm.Pool(a.j, maxtasksperchild=40) as pool:
             inflight = [(j, pool.apply_async(run_job, (j,))) for j in jobs]
+            dropped = {}
             while inflight:
                 nxt = []
                 progressed = False
+                over = time.time() - t0 > budget
                 for j, ar in inflight:
                     if ar.ready():
                         progressed = True
@@ -126,13 +130,26 @@ def main(argv=None):
                         results.append(r)
                         show(r)
                         for pfx in r.get('pending', []):
+                            if over:
+                                dropped[(j[0], j[1])] = dropped.get((j[0], j[1]), 0) + 1
+                                continue
                             nj = tuple(j[:5]) + ([pfx],)
                             nxt.append((nj, pool.apply_async(run_job, (nj,))))
                     else:
                         nxt.append((j, ar))
                 inflight = nxt
+                if over and time.time() - t0 > budget + 120:
+                    # give running jobs two more minutes, then abandon them
+                    for j, ar in inflight:
+                        dropped[(j[0], j[1])] = dropped.get((j[0], j[1]), 0) + 1
+                    pool.terminate()
+                    break
                 if not progressed:
                     time.sleep(0.05)
+            for (cid, ci), n in dropped.items():
+                results.append({'contract': cid, 'cfg_idx': ci, 'cfg': reg[cid].configs[ci], 'paths': 0, 'obligs': [], 'proved': [],
+                                'engine_error': 'exploration budget of %d s exceeded: %d path prefixes unexplored' % (budget, n),
+                                'cross': {'validated': 0, 'mismatch': [], 'skipped': 0}, 'solver_calls': 0, 'solver_s': 0.0, 'wall_s': 0.0, 'samples': []})
     return report(prop, tier, seed, reg, cs, jobs, results, t0, a)
 
 
